@@ -249,6 +249,14 @@ func verifC08(t *testing.T, constructedOnly bool) {
 			for k := r.Intn(3); k > 0; k-- {
 				m.NewAlias(nm("a", k), gs[r.Intn(len(gs))])
 			}
+			// a global declaration, and aliases whose aliasee is a constant expression (with and without leading type)
+			if r.Intn(2) == 0 {
+				m.NewGlobal(nm("d", 1), types.I32)
+			}
+			if r.Intn(2) == 0 {
+				m.NewAlias(nm("s", 1), constant.NewSelect(constant.True, gs[0], gs[len(gs)-1]))
+				m.NewAlias(nm("b", 1), constant.NewBitCast(gs[0], types.NewPointer(types.I32)))
+			}
 			// the resolver of an ifunc returns a pointer to the function a call resolves to
 			var resolvers []*ir.Func
 			for k := r.Intn(3); k > 0; k-- {
